@@ -278,3 +278,45 @@ def near_boundary_targets(rng, Mt, c0, lbv, ubv, inside_pool, scale, k=3):
         out.append((cross + step * d, "near-outside"))
         out.append((cross - step * d, "near-inside"))
     return out
+
+
+# ------------------------------------------------------------------ re-registration on a live estimator (stale-state workloads)
+
+REREG_OPS = ("register_adaptation", "register_baseline", "register_bounds", "register_system_adaptation",
+             "register_background_adaptation")
+
+
+def reregister(rng, est, s, op=None, matrix_ok=True):
+    """Apply one registration call to the live estimator `est` (built by make_estimator from system dict `s`) and
+    return (op, new system dict) describing the values that are registered afterwards (documented update rules)."""
+    A = np.atleast_2d(s["A"])
+    m, n = A.shape
+    t = dict(s)
+    op = op or REREG_OPS[rng.integers(len(REREG_OPS))]
+    base = np.zeros(m) if s["baseline"] is None else np.broadcast_to(np.asarray(s["baseline"], float), (m,)).astype(float)
+    if op == "register_adaptation":
+        kk = ["scalar", "vector", "matrix"][rng.integers(3 if matrix_ok else 2)]
+        K = make_K(rng, m, kk)
+        est.register_adaptation(K.copy() if isinstance(K, np.ndarray) else K)
+        t["K"], t["kkind"] = K, kk
+    elif op == "register_baseline":
+        b = rng.uniform(0.0, 0.3, m) * float(np.max(np.abs(base)) + np.max(A))
+        est.register_baseline(b.copy())
+        t["baseline"], t["basekind"] = b, "vector"
+    elif op == "register_bounds":
+        _, _, lbv, ubv = sys_arrays(s)
+        new_ub = np.where(np.isfinite(ubv), ubv * rng.uniform(0.4, 0.9, n), rng.uniform(1, 5, n))
+        new_lb = np.where(rng.random(n) < 0.5, 0.0, 0.1 * new_ub)
+        est.register_bounds(lb=new_lb.copy(), ub=new_ub.copy())
+        t["lb"], t["ub"], t["lbkind"], t["ubkind"] = new_lb, new_ub, "pos" if np.any(new_lb > 0) else "zero", "finite"
+    elif op == "register_system_adaptation":
+        x = rng.uniform(0.2, 1.5, n)
+        est.register_system_adaptation(x.copy())
+        t["K"], t["kkind"] = 1.0 / (A @ x + base), "vector"
+    else:
+        bg = np.zeros(m + 2)
+        bg[1:m + 1] = rng.uniform(0.2, 2.0, m) * float(np.mean(A)) * n
+        bg[0], bg[-1] = rng.uniform(0, 1, 2)           # end samples do not overlap any filter
+        est.register_background_adaptation(bg.copy())
+        t["K"], t["kkind"] = 1.0 / (bg[1:m + 1] + base), "vector"
+    return op, t
